@@ -78,7 +78,7 @@ def r1(case, rec):
     nc = noncorner(exp.shape)
     require(not np.ma.getmaskarray(out)[nc].any(), 'interior entries masked after marginalising unmasked data')
     require_close(np.ma.getdata(out)[nc], exp[nc], 1e-12, 'marginal spectrum', rec, atol=1e-300)
-    require_close(np.ma.getdata(out)[nc].sum(), exp[nc].sum(), 1e-12, 'total', rec, atol=1e-300)
+    require_close(np.ma.getdata(out)[nc].sum(), exp[nc].sum(), 1e-12, 'total', rec, atol=1e-300 + 1e-13 * float(np.abs(exp).sum()))
     elab = [c['pop_ids'][a] for a in keep] if c['pop_ids'] else None
     require(out.pop_ids == elab, 'labels after %s over %s: %r, expected %r' % (case['via'], over, out.pop_ids, elab))
     require(fs.pop_ids == c['pop_ids'] and np.array_equal(fs.data, data), '%s modified its input' % case['via'])
@@ -201,7 +201,8 @@ def r4(case, rec):
     gens.fs_equal(out, ed, em2, 1e-12, 'combined spectrum', rec)
     if not mask.any():
         # the result is built with masked corners (they receive only the two corner entries of the input)
-        require_close(np.ma.getdata(out)[~em2].sum(), data.sum() - data.flat[0] - data.flat[-1], 1e-12, 'total after combining', rec, atol=1e-300)
+        require_close(np.ma.getdata(out)[~em2].sum(), data.sum() - data.flat[0] - data.flat[-1], 1e-12, 'total after combining', rec,
+                      atol=1e-300 + 1e-13 * float(np.abs(data).sum()))     # the expected value is itself a difference of sums
     sp = sorted(pops)
     if labels_before:
         keep = [a for a in range(nd) if a not in sp[1:]]
@@ -303,7 +304,7 @@ def r6(case, rec):
         nc = noncorner(exp.shape)
         require(not np.ma.getmaskarray(out)[nc].any(), 'interior entries masked after scrambling')
         require_close(np.ma.getdata(out)[nc], exp[nc], 1e-11, 'scrambled spectrum', rec, atol=1e-300)
-        require_close(np.ma.getdata(out)[nc].sum(), data.sum(), 1e-11, 'total after scrambling', rec, atol=1e-300)
+        require_close(np.ma.getdata(out)[nc].sum(), data.sum(), 1e-11, 'total after scrambling', rec, atol=1e-300 + 1e-13 * float(np.abs(data).sum()))
         with dadi_call('fold/scramble'):
             a = fs.fold().scramble_pop_ids()
             b = fs.scramble_pop_ids().fold()
